@@ -199,59 +199,38 @@ example : (((Iter.mk' [([1], [1]), ([3], [3]), ([5], [5])] [] (some [5]) true).s
     ∧ (((Iter.mk' [([1], [1]), ([3], [3]), ([5], [5])] [] (some [5]) false).seek [2]).1.cur = some ([3], [3])) := by
   decide
 
-/-! ### GoBadgerDB iterator: the full statement is false of the code (S-C06) -/
+/-! ### GoBadgerDB iterator (repaired code, /repo commit 0f6664f)
 
-/-- the statement `iter_forward`/`iter_reverse` make for goleveldb/memdb, for the badger iterator. -/
-def BadgerIterFull : Prop :=
-  ∀ (m : Map) (start : Bytes) (end_ : Option Bytes) (rev : Bool), Sorted m →
-    (BIter.mk' m start end_ rev).scan
-      = if rev then (range m start (effEnd start end_)).reverse else range m start (effEnd start end_)
+`BIter` mirrors `goBadgerDBIt` as repaired: `Valid` requires `start ≤ key < end`, `Rewind` of a
+reverse iterator skips the bound, `Seek` clamps the target into `[start, end)`, `Next` on an
+exhausted iterator returns false.  The earlier refutation (`badger_iter_full_false`: the prefix scan
+of `a` returned `b`) no longer applies; its witness is kept as a regression input
+(`corpus/C06/s_c06_badger_bound.ops`).  Two deviations from `goLevelDBIt` remain and are *not*
+covered by the scan theorems: a fresh iterator is already positioned, and a reverse `Seek` with an
+empty target lands on the last key (findings.d/C06.json, `corpus/C06/badger_residual.ops`). -/
 
-/-- Refuted on the code as written: keys `a`, `b`; the prefix scan of `a` also returns `b`
-(= `bytesPrefix("a")`), because `itBase.checkKey`'s inclusive `key ≤ end` is the only upper check.
-No `0xff` byte involved.  Replayed on the real code: `corpus/C06/s_c06_badger_bound.ops`. -/
-theorem badger_iter_full_false : ¬ BadgerIterFull := by
-  intro h
-  have := h [([0x61], [1]), ([0x62], [2])] [0x61] none false (by decide)
-  revert this
-  decide
-
-/-- what the forward badger scan returns instead, for all inputs: the keys with
-`start ≤ key ≤ end` — the *inclusive* range (`itBase.checkKey` is its only upper check). -/
-theorem badger_iter_forward_inclusive {m : Map} (hs : Sorted m) (start : Bytes) (end_ : Option Bytes) :
-    (BIter.mk' m start end_ false).scan = m.filter (fun e => checkKey start (effEnd start end_) e.1) :=
+/-- forward badger iteration (`Rewind`, then `Next` while `Valid`) visits exactly the in-range
+entries in ascending order, each once — the same statement as `iter_forward`. -/
+theorem badger_iter_forward {m : Map} (hs : Sorted m) (start : Bytes) (end_ : Option Bytes) :
+    (BIter.mk' m start end_ false).scan = range m start (effEnd start end_) :=
   BIter.scan_forward hs start end_
 
-/-- the statement that does hold for badger (forward): with the added hypothesis that the bound
-itself is not a key of the database, the scan is exactly the in-range entries in order. -/
-theorem badger_iter_forward_partial {m : Map} (hs : Sorted m) (start : Bytes) (end_ : Option Bytes)
-    (habsent : ∀ u, effEnd start end_ = some u → get m u = none) :
-    (BIter.mk' m start end_ false).scan = range m start (effEnd start end_) := by
-  rw [BIter.scan_forward hs]
-  unfold range
-  apply List.filter_congr
-  intro e he
-  cases hu : effEnd start end_ with
-  | none => simp [checkKey, inRange, belowUpper]
-  | some u =>
-    have hne : e.1 ≠ u := by
-      intro h
-      have := get_of_mem hs (show (e.1, e.2) ∈ m from he)
-      rw [h, habsent u hu] at this; cases this
-    simp only [checkKey, inRange, belowUpper]
-    congr 1
-    -- key ≤ u ∧ key ≠ u  ↔  key < u
-    cases hlt : blt e.1 u with
-    | true => exact ble_of_blt hlt
-    | false =>
-      cases hle : ble e.1 u with
-      | false => rfl
-      | true =>
-        rcases ble_iff.mp hle with h | h
-        · rw [h] at hlt; cases hlt
-        · exact absurd h hne
+/-- reverse badger iteration visits exactly the in-range entries in descending order, each once —
+the same statement as `iter_reverse` (the bound itself is skipped). -/
+theorem badger_iter_reverse {m : Map} (hs : Sorted m) (start : Bytes) (end_ : Option Bytes) :
+    (BIter.mk' m start end_ true).scan = (range m start (effEnd start end_)).reverse :=
+  BIter.scan_reverse hs start end_
 
-example : (BIter.mk' [([0x61], [1]), ([0x63], [2])] [0x61] none false).scan = [([0x61], [1])]
-    ∧ get [([0x61], [1]), ([0x63], [2])] [0x62] = none := by decide
+/-- **the repaired Badger iterator scans like the goleveldb/memdb iterator**, for every map, every
+bounds (prefix mode, explicit range, `EmptyValue`) and both directions. -/
+theorem badger_iter_eq_leveldb {m : Map} (hs : Sorted m) (start : Bytes) (end_ : Option Bytes) (rev : Bool) :
+    (BIter.mk' m start end_ rev).scan = (Iter.mk' m start end_ rev).scan := by
+  cases rev with
+  | false => rw [badger_iter_forward hs, iter_forward hs]
+  | true => rw [badger_iter_reverse hs, iter_reverse hs]
+
+/-- regression witness of S-C06: keys `a`, `b`; the prefix scan of `a` returns only `a`. -/
+example : (BIter.mk' [([0x61], [1]), ([0x62], [2])] [0x61] none false).scan = [([0x61], [1])]
+    ∧ (BIter.mk' [([0x61], [1]), ([0x62], [2])] [0x61] none true).scan = [([0x61], [1])] := by decide
 
 end C06
